@@ -52,14 +52,15 @@ type vhAnswer struct {
 // vhLN is the scripted Lightning backend: every answer is a fresh nondeterministic record, every
 // call is recorded in the ledger.
 type vhLN struct {
-	Pays      []vhPay
-	Answers   []vhAnswer
-	FeeQ      []vhFeeQ
-	Created   int
-	StatusQ   int
-	InvoiceQ  int
+	Pays        []vhPay
+	Answers     []vhAnswer
+	FeeQ        []vhFeeQ
+	Created     int
+	StatusQ     int
+	InvoiceQ    int
+	InvoiceErrs int
 	WatcherLive bool
-	MaxScript int
+	MaxScript   int
 }
 
 func (l *vhLN) ConnectionStatus() error { return nil }
@@ -76,6 +77,7 @@ func (l *vhLN) InvoiceStatus(hash string) (lightning.Invoice, error) {
 	v.Yield("Client.InvoiceStatus")
 	l.InvoiceQ++
 	if v.Int("ln.invoice.err", 0, 1) == 1 {
+		l.InvoiceErrs++
 		return lightning.Invoice{}, errors.New("scripted backend: invoice lookup failed")
 	}
 	return lightning.Invoice{PaymentHash: hash, Settled: v.Bool("ln.invoice.settled"), Preimage: v.Str("ln.invoice.preimage")}, nil
